@@ -318,7 +318,9 @@ def stressH : Handler := fun _inp impl => do
        (if r.counts.length ≤ 1 then r.cursor == 0 else r.cursor == r.k) && r.counts == expectedCounts r))
   let cache := (impl.getObjVal? "cache").toOption.getD Json.null
   let cacheOK := getNatD cache "entries" ≤ getNatD cache "size" && getNatD cache "n" ≤ getNatD cache "size" &&
-    getNatD cache "h" < max (getNatD cache "n") 1 && getNatD cache "l" == getNatD cache "size"
+    getNatD cache "h" < max (getNatD cache "n") 1 && getNatD cache "l" == getNatD cache "size" &&
+    -- sampled under the cache's mutex while lookups were in flight: |map| = n ≤ size at every sample
+    getNatD cache "inflight_bad" == 0
   -- the ring and the target list of a published table are what they were when it was built
   -- (`published_table_any_schedule`: nothing that runs on a published table writes to it)
   let ringOK := routes.all (fun r => !r.ringChanged)
